@@ -165,8 +165,185 @@ def text_of_units(fill, n_units, gsm, two_at=None, two_ch=None):
     return ''.join(out)
 
 
+def parse_submit_full(p):
+    """independent reading of a submit_sm PDU: mandatory fields in order, short_message octets, TLVs in order"""
+    import struct
+    i = 16
+    out = {}
+
+    def cstr():
+        nonlocal i
+        j = p.index(b'\x00', i)
+        v = p[i:j]
+        i = j + 1
+        return v
+    out['service_type'] = cstr()
+    out['src'] = (p[i], p[i + 1])
+    i += 2
+    out['src_addr'] = cstr()
+    out['dst'] = (p[i], p[i + 1])
+    i += 2
+    out['dst_addr'] = cstr()
+    out['esm'], out['pid'], out['prio'] = p[i], p[i + 1], p[i + 2]
+    i += 3
+    out['sched'] = cstr()
+    out['valid'] = cstr()
+    out['reg'], out['repl'], out['dc'], out['defid'] = p[i], p[i + 1], p[i + 2], p[i + 3]
+    i += 4
+    ln = p[i]
+    i += 1
+    out['sm'] = p[i:i + ln]
+    i += ln
+    tlvs = []
+    while i + 4 <= len(p):
+        tag, tl = struct.unpack('!HH', p[i:i + 4])
+        tlvs.append((tag, p[i + 4:i + 4 + tl]))
+        i += 4 + tl
+    out['tlvs'] = tlvs
+    return out
+
+
+SAR_TAGS = (0x020C, 0x020E, 0x020F)
+
+
+def session_segments_case(rng):
+    """a message with options, addressing and application parameters of its own, segmented by the real Sender (SAR or
+    UDH): an independent receiver reads the PDUs written.  Every segment must carry the message's addressing and options
+    and its application parameters exactly once, the segmentation data (same reference, same total <= 255, sequence
+    numbers 1..total once each) exactly once, and the payloads decoded and concatenated must be the text.  No model line
+    (the PDU-level model of the sender is tied by C06): predicate only."""
+    import struct
+    from aiosmpplib.protocol import SubmitSm
+    from aiosmpplib.state import OptionalParam, PhoneNumber, TON, NPI
+    from corr import c06
+    udh = rng.random() < 0.5
+    gsm = rng.random() < 0.5
+    alphabet = sorted(spec.ALPHABET - {'\x1b'}) if gsm else list('жяблоко мир') + ['\U0001F600', 'a', '€']
+    n = rng.choice((200, 300, 460, 700, 1500))
+    text = ''.join(rng.choice(alphabet) for _ in range(n))
+    params = []
+    if rng.random() < 0.8:
+        params.append(OptionalParam(0x0204, rng.randrange(65536)))            # user_message_reference
+    if rng.random() < 0.5:
+        params.append(OptionalParam(0x0201, rng.randrange(256)))              # privacy_indicator
+    if rng.random() < 0.3:
+        params.append(OptionalParam(0x130C, True))                            # alert_on_message_delivery
+    kw = dict(short_message=text, auto_message_payload=False, log_id='seg', optional_params=params,
+              source=PhoneNumber('4477%d' % rng.randrange(1000), TON.INTERNATIONAL, NPI.ISDN),
+              destination=PhoneNumber('38591%d' % rng.randrange(1000), TON.NATIONAL, NPI.ISDN),
+              service_type=rng.choice(('', 'CMT', 'WAP')), protocol_id=rng.choice((0, 0x7F)),
+              priority_flag=rng.choice((0, 1, 3)), registered_delivery=rng.choice((0, 1, 17)),
+              esm_class=(0x40 if udh else 0) | rng.choice((0, 3)))
+    m = SubmitSm(**kw)
+    n_own = len(params)
+    obs = c06.batch([m], 'gsm0338')
+    fail = None
+    written = obs[0]['written'] if obs else []
+    if not obs or obs[0]['errors'] or not written:
+        fail = 'the message was not transmitted (%s)' % (obs[0]['errors'] if obs else 'no observation')
+    else:
+        segs = []
+        for p in written:
+            try:
+                segs.append(parse_submit_full(p))
+            except Exception as e:      # noqa
+                fail = 'a segment cannot be read by an independent parser (%r)' % (e,)
+                break
+        if fail is None:
+            for k, g in enumerate(segs):
+                if (g['src_addr'], g['dst_addr'], g['src'], g['dst']) != (m.source.number.encode(), m.destination.number.encode(),
+                                                                       (int(m.source.ton), int(m.source.npi)),
+                                                                       (int(m.destination.ton), int(m.destination.npi))):
+                    fail = 'segment %d carries other addressing than the message' % (k + 1)
+                elif (g['service_type'], g['pid'], g['prio'], g['reg']) != (m.service_type.encode(), kw['protocol_id'],
+                                                                          kw['priority_flag'], kw['registered_delivery']):
+                    fail = 'segment %d carries other options than the message' % (k + 1)
+                elif g['esm'] & 0x3F != kw['esm_class'] & 0x3F:
+                    fail = 'segment %d: esm_class %02x, message %02x' % (k + 1, g['esm'], kw['esm_class'])
+                own = [(t, v) for t, v in g['tlvs'] if t not in SAR_TAGS]
+                want = []
+                for q in params:
+                    if q.tag == 0x130C:
+                        want.append((q.tag, b''))
+                    elif q.tag == 0x0204:
+                        want.append((q.tag, struct.pack('!H', q.value)))
+                    else:
+                        want.append((q.tag, bytes([q.value])))
+                if fail is None and own != want:
+                    fail = 'segment %d carries the application parameters %s, the message has %s' % (
+                        k + 1, [(hex(t), v.hex()) for t, v in own], [(hex(t), v.hex()) for t, v in want])
+                if fail:
+                    break
+        if fail is None and len(segs) > 1:
+            infos = []
+            payloads = []
+            for k, g in enumerate(segs):
+                sar = [(t, v) for t, v in g['tlvs'] if t in SAR_TAGS]
+                if g['esm'] & 0x40:
+                    sm = g['sm']
+                    if len(sm) < 6 or sm[0] + 1 > len(sm) or sm[1] not in (0, 8) or sar:
+                        fail = 'segment %d: unexpected user data header %s / SAR parameters %d' % (k + 1, sm[:7].hex(), len(sar))
+                        break
+                    if sm[1] == 0:
+                        infos.append((sm[3], sm[4], sm[5]))
+                    else:
+                        infos.append((sm[3] * 256 + sm[4], sm[5], sm[6]))
+                    payloads.append((g['dc'], sm[sm[0] + 1:]))
+                    hdr = sm[0] + 1
+                    if g['dc'] == 0:
+                        # GSM alphabet: 160 septets including the header (the library sends one septet per octet)
+                        if (hdr * 8 + 6) // 7 + (len(sm) - hdr) > 160:
+                            fail = 'segment %d has %d header octets + %d septets (limit 160 septets in all)' % (k + 1, hdr, len(sm) - hdr)
+                            break
+                    elif len(sm) > 140:
+                        fail = 'segment %d has %d octets of short_message with a UDH (limit 140)' % (k + 1, len(sm))
+                        break
+                else:
+                    d = dict(sar)
+                    if len(sar) != 3 or len(d) != 3:
+                        fail = 'segment %d carries %d SAR parameters (%s)' % (k + 1, len(sar), sorted(hex(t) for t, _ in sar))
+                        break
+                    infos.append((int.from_bytes(d[0x020C], 'big'), d[0x020E][0], d[0x020F][0]))
+                    payloads.append((g['dc'], g['sm']))
+                    if len(g['sm']) > 254:
+                        fail = 'segment %d has %d octets of short_message (limit 254)' % (k + 1, len(g['sm']))
+                        break
+            if fail is None:
+                tot = len(segs)
+                if len({r for r, _t, _q in infos}) != 1:
+                    fail = 'segments carry different reference numbers %s' % sorted({r for r, _t, _q in infos})
+                elif any(t != tot for _r, t, _q in infos) or tot > 255:
+                    fail = 'segments announce totals %s, %d were sent' % (sorted({t for _r, t, _q in infos}), tot)
+                elif sorted(q for _r, _t, q in infos) != list(range(1, tot + 1)):
+                    fail = 'segment sequence numbers are %s' % [q for _r, _t, q in infos]
+                else:
+                    ordered = [pl for _q, pl in sorted(zip([q for _r, _t, q in infos], payloads))]
+                    got = ''
+                    for dc, data in ordered:
+                        if dc == 0:
+                            t = spec.decode(data)
+                        elif dc == 8:
+                            try:
+                                t = data.decode('utf-16-be')
+                            except UnicodeDecodeError:
+                                t = None
+                        else:
+                            t = None
+                        if t is None:
+                            fail = 'a segment payload does not decode on its own under data_coding %d' % dc
+                            break
+                        got += t
+                    if fail is None and got != text:
+                        fail = 'reassembled text differs from the text submitted (%d vs %d characters)' % (len(got), len(text))
+    line = '# session-segments udh=%d gsm=%d n=%d params=%d' % (udh, gsm, n, n_own)
+    return Case(line, line, ('session-seg', udh, gsm, min(len(written), 4), n_own), fail,
+                {'op': 'session-seg', 'note': 'random; re-run the check with the same seed'})
+
+
 def generate(rng, tier):
     thorough = tier == 'thorough'
+    for _ in range(40 if thorough else 12):
+        yield session_segments_case(rng)
     refs = (0, 1, 255, 256, 65535)
     # (function, gsm?, ref-width) -> (single limit in cells, chunk size in cells)
     confs = []
